@@ -8,7 +8,7 @@ PROPERTY = "C08"
 RULE = ("1-3 keep-alive requests whose header sets mix hyphen/underscore/case spellings of forwarding, scheme, SCRIPT_NAME/PATH_INFO "
         "and ordinary fields (duplicates, conflicting scheme headers) x peer (listed IPv4, unlisted IPv4, IPv6, unix) x "
         "forwarded_allow_ips x proxy_allow_ips x forwarder_headers x header_map x secure_scheme_headers x proxy_protocol with "
-        "valid/invalid/absent PROXY line x worker class; the environ of every application call is compared with a reference trust "
+        "valid/invalid/absent PROXY line x optional earlier connection from another peer to the same worker x worker class; the environ of every application call is compared with a reference trust "
         "model: exact HTTP_* mapping (no two spellings in one variable under drop/refuse), wsgi.url_scheme / SCRIPT_NAME / PATH_INFO / "
         "REMOTE_ADDR differ from their untrusted defaults only when the peer passes the matching allow list, conflicting scheme "
         "headers from a trusted peer are rejected, PROXY from an unlisted peer is refused without an application call, and an accepted "
@@ -78,6 +78,8 @@ def strategy(tier):
         "proxy_protocol": st.booleans(),
         "proxy_line": st.sampled_from([None] * 6 + PROXY_LINES + [PROXY_LINES[2], PROXY_LINES[3]]),
         "requests": st.lists(req, min_size=1, max_size=3),
+        # an earlier connection to the same worker, from another peer, sending the same bytes: the gate is per peer, not per worker
+        "earlier_peer": st.one_of(st.none(), st.sampled_from(sorted(PEERS))),
     })
 
 
@@ -160,6 +162,9 @@ def run_case(case):
     env = wenv.Env(kind, cfg, app)
     if case["peer"] == "unix":
         env.listener = wenv.FakeListener("/run/gunicorn.sock")
+    if case.get("earlier_peer") and case["peer"] != "unix" and case["earlier_peer"] != "unix":
+        env.serve(wenv.FakeSocket([raw.encode("latin-1")], peer=PEERS[case["earlier_peer"]]))
+        del app.calls[:]
     sock = wenv.FakeSocket([raw.encode("latin-1")], peer=peer)
     escaped = env.serve(sock)
     vio = []
